@@ -977,6 +977,35 @@ def fifo_exactly_once(scn, tr):
         elif t[0] == 'I' and t[1] == 't' and int(t[5]) == 0:
             accepted.append((int(t[2]), int(t[3])))
     fails = []
+    # the observer cat_is_unsolicited_event_buffered, judged where the truth is known: walk the trace again,
+    # keeping the accepted list and the number of events already taken for processing
+    acc2, nstart, last, prev_term, curq = [], 0, None, True, None
+    for l in tr:
+        t = l.split()
+        if t[0] == '>' and t[1] == 't':
+            last = (int(t[2]), int(t[3]))
+        elif t[0] == '>' and t[1] == 'q':
+            curq = (int(t[2]), int(t[3]))
+        elif t[0] == '=' and t[1] == 't':
+            if int(t[2]) == 0 and last is not None:
+                acc2.append(last)
+            last = None
+        elif t[0] == 'I' and t[1] == 't' and int(t[5]) == 0:
+            acc2.append((int(t[2]), int(t[3])))
+        elif t[0] == 'H' and t[1] in ('r', 't') and t[2] == '1':
+            if prev_term:
+                nstart += 1
+            prev_term = int(t[-1]) not in (1, 2)
+        elif t[0] == '=' and t[1] == 'q' and curq is not None:
+            def match(e):
+                return e[0] == curq[0] and (curq[1] == -1 or e[1] == curq[1])
+            waiting = acc2[nstart:]                      # certainly still queued
+            maybe = acc2[max(0, nstart - 1):]            # plus the one possibly still being processed
+            if any(match(e) for e in waiting) and t[2] != '1' and not fails:
+                fails.append('cat_is_unsolicited_event_buffered(%d,%d) returned %s although a matching accepted event is still waiting in the queue %r' % (curq[0], curq[1], t[2], waiting[:4]))
+            if not any(match(e) for e in maybe) and t[2] != '0' and not fails:
+                fails.append('cat_is_unsolicited_event_buffered(%d,%d) returned %s although no matching event is queued or in progress' % (curq[0], curq[1], t[2]))
+            curq = None
     n = len(started)
     if started != accepted[:n]:
         k = next(i for i in range(n) if i >= len(accepted) or started[i] != accepted[i])
@@ -1344,7 +1373,49 @@ def oracle_C20_newline(scn, tr):
     return fails
 
 
+def oracle_C20_units_newline(scn, tr):
+    """family 'units' (events active): the result-code unit of every command line must use the newline that
+    line asked for — CRLF iff the line contained a CR after its first non-blank character — whatever the
+    event machine was doing meanwhile.  Result codes (OK / ERROR) are recognisable in the stream because
+    the two producers use disjoint payload alphabets."""
+    fails = []
+    cur = bytearray()
+    want_queue = []          # expected newline of each non-blank line, in order
+    out = bytearray()
+    for l in tr:
+        t = l.split()
+        if t[0] == '>' and t[1] == 'N':
+            cur = bytearray()
+        elif t[0] == 'R' and t[1] != '-':
+            b = int(t[1], 16)
+            if b == 10:
+                if any(c != 13 for c in cur):
+                    i = 0
+                    while i < len(cur) and cur[i] == 13:
+                        i += 1
+                    want_queue.append(b'\r\n' if 13 in cur[i:] else b'\n')
+                cur = bytearray()
+            else:
+                cur.append(b)
+        elif t[0] == 'W' and t[2] == '1':
+            out.append(int(t[1], 16))
+    s = bytes(out)
+    # find the result-code units in order: (CR)LF OK|ERROR (CR)LF
+    k = 0
+    for m in _re.finditer(rb'(\r?\n)(OK|ERROR)(\r?\n)', s):
+        if k >= len(want_queue):
+            break
+        want = want_queue[k]
+        k += 1
+        if m.group(1) != want or m.group(3) != want:
+            fails.append('result code of non-blank line #%d is framed by %r ... %r, the line asked for %r' % (k, m.group(1), m.group(3), want))
+            break
+    return fails
+
+
 def oracle_C20(scn, tr):
+    if scn.meta.get('family') == 'units' or scn.name.startswith('un'):
+        return oracle_C20_units_newline(scn, tr)
     return oracle_C20_newline(scn, tr)
 
 
